@@ -16,10 +16,14 @@ Nil == "nil"
 \*   sprops  set of own proposals    [r, val, pol, mid]
 \*   fin     "none" or the finalized value
 \*   pend    mids written to the round WAL but not yet synced;  dur  mids durably logged
-Empty(me) == [me |-> me, recv |-> {}, signed |-> {}, sprops |-> {}, fin |-> "none", pend |-> {}, dur |-> {}]
+\*   logged  own votes [type, r, val] written to the round WAL: the engine signs a vote, logs it, syncs, and only then
+\*           sends it; a vote that was logged but not sent before a power loss is restored from the WAL and counts in
+\*           the engine's own vote sets like a sent one
+Empty(me) == [me |-> me, recv |-> {}, signed |-> {}, sprops |-> {}, fin |-> "none", pend |-> {}, dur |-> {}, logged |-> {}]
 
 \* own votes count like received ones (the engine adds them to its own vote sets)
 Seen(s) == s.recv \cup {[from |-> s.me, type |-> v.type, r |-> v.r, val |-> v.val] : v \in s.signed}
+                  \cup {[from |-> s.me, type |-> v.type, r |-> v.r, val |-> v.val] : v \in s.logged}
 Voters(s, type, r, val) == {m.from : m \in {x \in Seen(s) : x.type = type /\ x.r = r /\ x.val = val}}
 Quorum(S) == 3 * Cardinality(S) > 2 * N
 Polka(s, r, val) == Quorum(Voters(s, "pv", r, val))
@@ -53,6 +57,7 @@ DoRecv(s, from, type, r, val) == [s EXCEPT !.recv = @ \cup {[from |-> from, type
 DoSignVote(s, type, r, val, mid) == [s EXCEPT !.signed = @ \cup {[type |-> type, r |-> r, val |-> val, mid |-> mid]}]
 DoSignProp(s, r, val, pol, mid) == [s EXCEPT !.sprops = @ \cup {[r |-> r, val |-> val, pol |-> pol, mid |-> mid]}]
 DoWalWrite(s, mid) == [s EXCEPT !.pend = @ \cup {mid}]
+DoWalVote(s, mid, type, r, val) == [s EXCEPT !.pend = @ \cup {mid}, !.logged = @ \cup {[type |-> type, r |-> r, val |-> val]}]
 DoWalSync(s) == [s EXCEPT !.dur = @ \cup s.pend, !.pend = {}]
 DoRestart(s) == [s EXCEPT !.pend = {}]      \* unsynced bytes may or may not have survived; they are not durable
 DoFinalize(s, val) == [s EXCEPT !.fin = val]
